@@ -552,7 +552,7 @@ def iterDictStep (n nameLen : Nat) (slots : Option String × Option String) (bod
               | some v => do
                 let ks ← newStr k
                 iterPass n nameLen slots body ks v
-              | none => goPanic
+              | none => pure false
             | _ => goPanic
 
 def iterLoop (n nameLen : Nat) (slots : Option String × Option String) (body : Option (List Stmt))
@@ -648,7 +648,9 @@ theorem ListPasses.append {n nameLen : Nat} {slots : Option String × Option Str
     rw [show i + 1 + xs.length = i + (x :: xs).length by simp; omega]; exact h2
 
 /-- `DictPasses … target keys s s'`: complete passes for `keys`, in that order; the value of each key is read
-from the dictionary cell *at the time of the pass*, the key is a fresh text cell -/
+from the dictionary cell *at the time of the pass*, the key is a fresh text cell.  A key that is no longer in the
+dictionary when its turn comes (an earlier pass removed it) is skipped: nothing is bound, the body does not run, the
+machine is unchanged (`skip`). -/
 inductive DictPasses (n nameLen : Nat) (slots : Option String × Option String) (body : Option (List Stmt))
     (target : Addr) : List String → VM ν → VM ν → Prop
   | nil (s : VM ν) : DictPasses n nameLen slots body target [] s s
@@ -658,6 +660,20 @@ inductive DictPasses (n nameLen : Nat) (slots : Option String × Option String) 
       iterBind n nameLen slots s.heap.size v (pushCell (.str k) s) = (.ok (), s1) →
       evalPureStmtBlock n body s1 = (r, s2) → passVerdict r s2 = some true →
       DictPasses n nameLen slots body target ks s2 s3 → DictPasses n nameLen slots body target (k :: ks) s s3
+  | skip {k : String} {ks : List String} {vals : List (String × Addr)} {ord : List String} {s s3 : VM ν} :
+      s.heap[target]? = some (.hm vals ord) → lookup k vals = none →
+      DictPasses n nameLen slots body target ks s s3 → DictPasses n nameLen slots body target (k :: ks) s s3
+
+/-- a key that was removed before its turn: the step answers "go on" and leaves the machine alone -/
+theorem iterDictStep_skip {n nameLen : Nat} {slots : Option String × Option String} {body : Option (List Stmt)}
+    {target : Addr} {k : String} {vals : List (String × Addr)} {ord : List String} {s : VM ν}
+    (hcell : s.heap[target]? = some (.hm vals ord)) (hl : lookup k vals = none) :
+    iterDictStep n nameLen slots body target k s = (.ok false, s) := by
+  unfold iterDictStep
+  have hg : getCell target s = (.ok (.hm vals ord), s) := by simp [getCell, hcell]
+  rw [bind_ok hg]
+  simp only [hl]
+  rfl
 
 theorem iterDictStep_pass {n nameLen : Nat} {slots : Option String × Option String} {body : Option (List Stmt)}
     {target : Addr} {k : String} {vals : List (String × Addr)} {ord : List String} {v : Addr}
@@ -684,6 +700,9 @@ theorem untilM_passes {n nameLen : Nat} {slots : Option String × Option String}
   | cons hcell hl hbind hb hv _ ih =>
     rw [← ih]
     simp [untilM, bind, iterDictStep_pass hcell hl hbind hb hv]
+  | skip hcell hl _ ih =>
+    rw [← ih]
+    simp [untilM, bind, iterDictStep_skip hcell hl]
 
 theorem DictPasses.append {n nameLen : Nat} {slots : Option String × Option String} {body : Option (List Stmt)}
     {target : Addr} {a b : List String} {s0 s1 s2 : VM ν}
@@ -692,6 +711,7 @@ theorem DictPasses.append {n nameLen : Nat} {slots : Option String × Option Str
   induction h1 with
   | nil => exact h2
   | cons hcell hl hbind hb hv _ ih => exact .cons hcell hl hbind hb hv (ih h2)
+  | skip hcell hl _ ih => exact .skip hcell hl (ih h2)
 
 /-- running the loop of a 遍历 statement over a list cell: outcome of the statement from the outcome of the loop -/
 theorem iterate_list_ok {n ln : Nat} {e : Expr} {names : List Ident} {body : Option (List Stmt)}
@@ -1046,6 +1066,13 @@ def withF : VM Int := (evalStmt 4 fBreaks (programStart (initVM ()))).2
 def fReturns : Stmt := .funcDecl 0 (some ⟨0, "f"⟩) 1 (some (.mk [] (some [retX, .nil]) []))
 /-- the machine after that definition has been executed in a fresh program -/
 def withRetF : VM Int := (evalStmt 4 fReturns (programStart (initVM ()))).2
+
+/-- a machine whose variable `d` holds a dictionary from which key `q` has been removed while the key order of a
+running loop still lists it: values `[p = "a"]`, order `p, q` -/
+def vmGone : VM Int :=
+  { heap := #[.str "a", .hm [("p", 0)] ["p", "q"]], stack := [{ moduleId := 0, callType := 1 }], csModuleID := 0,
+    scopes := [(0, { syms := [{ name := "d", depth := 0, isConst := false, ext := none, val := 1 }], depth := 0 })],
+    modules := #[{ name := "m", hasProgram := true }] }
 
 theorem slot_set (s : VM ν) (h : (retSlot s).isSome = true) : retSlot s = some ((retSlot s).getD 0) := by
   cases hs : retSlot s <;> simp_all
